@@ -23,7 +23,7 @@ def run_model(tag, loaders, flags, causes, lens, maxsteps):
     write_cfg(cfg, {"MaxSteps": maxsteps, "BugLeakOnError": False, "BugNoTruncate": False, "LoaderSet": st(loaders), "FlagSet": st(flags),
                     "CauseSet": st(causes), "LenSet": st(lens)},
               invariants=["StoreExact", "RegionSound", "LiveWhileReadable", "ReleasedAtMostOnce", "NoLeakOnFailure",
-                          "ReleasedWhenDropped", "StructureBeforeBackend", "AdviceGiven", "MappingReadOnly", "EmitM"])
+                          "ReleasedWhenDropped", "StructureBeforeBackend", "AdviceGiven", "MappingReadOnly", "NoBackendNoRegion", "EmitM"])
     r = tlc("MC_MemCase", cfg, tag, workers=8, timeout=3000)
     if not r.ok:
         raise ToolError(f"TLC did not complete on MC_MemCase: violated={r.violated} error={r.error}\n{r.out[-2000:]}")
@@ -62,7 +62,9 @@ def to_cases(beh, nommap):
         if nommap and b["loader"] in ("load_mmap", "mmap"):
             continue
         ops = harness_ops(b["ops"])
-        if b["cause"] == "wrongalign":
+        if b["loader"] == "encase":
+            tys = ["doc", "canary"] if b["ops"] else ["vec64", "doc", "canary"]
+        elif b["cause"] == "wrongalign":
             tys = ["lay"]
         elif b["cause"] == "bigalign":
             tys = ["big128"]
@@ -117,7 +119,9 @@ def judge(pid, b, c, o, V):
             return
         if not o["digest_ok"]:
             viol(f"{name}: the loaded structure differs from the value the file was written from", "value")
-        if c["loader"] != "load_full":
+        if c["loader"] == "encase" and o["region"] is not None:
+            viol(f"{name}: a case built in memory owns a backing region", "region")
+        if c["loader"] not in ("load_full", "encase"):
             rg = o["region"]
             if rg is None:
                 viol(f"{name}: no backing region", "region")
@@ -164,7 +168,7 @@ def judge(pid, b, c, o, V):
 def check(pid, tier, seed, V):
     quick = tier == "quick"
     tag = f"{pid.lower()}_{tier}"
-    loaders = ["load_full", "load_mem", "load_mmap", "mmap"]
+    loaders = ["load_full", "load_mem", "load_mmap", "mmap", "encase"]
     # file lengths of every residue modulo 64 (valid files are longer than the 45-byte minimum)
     lens = list(range(64, 128)) if (pid == "C08" or not quick) else [64, 65, 79, 80, 81, 112, 127]
     flags = list(range(8))
